@@ -5,6 +5,7 @@ import (
 	"strconv"
 	"strings"
 
+	"github.com/hedzr/is"
 	"github.com/hedzr/is/term/color"
 )
 
@@ -91,7 +92,7 @@ func (colorizeToolS) wrapHighlightColor(text string) string { //nolint:unused
 }
 
 func (colorizeToolS) echoBgColor(out io.Writer, clr color.Color) {
-	if clr != clrNone {
+	if clr != clrNone && !is.NoColorMode() {
 		// _, _ = fmt.Fprintf(os.Stdout, "\x1b[%dm", c)
 		_, _ = out.Write([]byte("\x1b["))
 		_, _ = out.Write([]byte(strconv.Itoa(int(clr))))
@@ -100,7 +101,7 @@ func (colorizeToolS) echoBgColor(out io.Writer, clr color.Color) {
 }
 
 func (colorizeToolS) echoColor(out io.Writer, clr color.Color) {
-	if clr != clrNone {
+	if clr != clrNone && !is.NoColorMode() {
 		// _, _ = fmt.Fprintf(os.Stdout, "\x1b[%dm", c)
 		_, _ = out.Write([]byte("\x1b["))
 		_, _ = out.Write([]byte(strconv.Itoa(int(clr))))
@@ -111,6 +112,9 @@ func (colorizeToolS) echoColor(out io.Writer, clr color.Color) {
 func (colorizeToolS) echoColorAndBg(out io.Writer, clr, bg color.Color) {
 	// _, _ = fmt.Fprintf(os.Stdout, "\x1b[%dm", c)
 
+	if is.NoColorMode() { // the process-wide plain-text switch that color.WrapColorTo & co. honour too
+		return
+	}
 	if clr != clrNone {
 		_, _ = out.Write([]byte("\x1b["))
 		_, _ = out.Write([]byte(strconv.Itoa(int(clr))))
@@ -125,6 +129,9 @@ func (colorizeToolS) echoColorAndBg(out io.Writer, clr, bg color.Color) {
 
 func (colorizeToolS) echoResetColor(out io.Writer) { //nolint:unused //no
 	// _, _ = fmt.Fprint(os.Stdout, "\x1b[0m")
+	if is.NoColorMode() {
+		return
+	}
 	_, _ = out.Write([]byte("\x1b[0m"))
 }
 
